@@ -7,7 +7,7 @@
 From Coq Require Import List String Bool Permutation.
 From Coq Require Import Floats.PrimFloat.
 From PAFC01 Require Import ModelTree Model Proofs2 Proofs3.
-From PAFC08 Require Import Model Lib Proofs1 Proofs2 Proofs3 Proofs4 Proofs5 Proofs6 Witness.
+From PAFC08 Require Import Model Lib Proofs1 Proofs2 Proofs3 Proofs4 Proofs5 Proofs6 Proofs7 Witness.
 Import ListNotations.
 
 (* ---- one round trip (any of the three forms) succeeds and yields an equivalent model; PARTIAL: under
@@ -136,6 +136,30 @@ Theorem C08_dict_arith : forall (V : Type) (bin : binop -> V -> V -> V) (falsy :
                forall a : nat -> option V, inst V bin a (tree V n') = inst V bin (fun q => a (s q)) (tree V n).
 Proof. exact dict_arith. Qed.
 
+(* ---- models with arithmetic priors ANYWHERE: with the operands of every arithmetic prior put under the fixed
+   names l / r ([bn]: the stored forms do not keep those names, finding arith-names), a round trip -- and any
+   sequence of them -- is an injective renaming and changes nothing else.  With C08_paths / C08_sharing /
+   C08_count / C08_instance applied to [bn n] this gives the specification at every place, the sharing
+   partition, the constants and the assertions of the WHOLE model, not only order / count / instances. ---- *)
+Theorem C08_round_trip_arith : forall (V : Type) (falsy : V -> bool) (cf : cfg) (f : form) (n : snode V),
+  guard2 V falsy cf f n = true -> consistent V n ->
+  exists n', rt V falsy cf f n = Ok n' /\ equiv V (bn V n) (bn V n').
+Proof. exact rt_equiv_bn. Qed.
+
+Theorem C08_iter_arith : forall (V : Type) (falsy : V -> bool) (cf : cfg) (fs : list form) (n : snode V),
+  consistent V n -> guards2 V falsy cf fs n ->
+  exists n', rt_seq V falsy cf fs n = Ok n' /\ equiv V (bn V n) (bn V n').
+Proof. exact rt_seq_equiv_bn. Qed.
+
+(* ---- the former witnesses under the repaired code (positive counterparts of the _refuted theorems below,
+   which are statements about cfg_pinned, the tree as it was pinned) ---- *)
+Theorem C08_former_witnesses_fixed :
+  (exists n', db_rt float cfg_fixed w_new = Ok n' /\ prior_count float (tree float n') = 2) /\
+  (exists n', db_rt float cfg_fixed w_passed = Ok n' /\ unique_prior_paths float (tree float n') = unique_prior_paths float (tree float w_passed)) /\
+  (exists n', db_rt float cfg_fixed w_chain = Ok n' /\ snode_eqb n' w_chain = true) /\
+  (exists n', rt_seq float ffalsy cfg_fixed [FPickle; FDb] (g2 (SPrior 0 (gau (Some 0))) (SConst 1%float) []) = Ok n').
+Proof. exact former_witnesses_fixed. Qed.
+
 (* ---- the full statement is refuted on the faithful model of the pinned code ---- *)
 Theorem C08_db_refuted :
   exists n n', consistent float n /\ db_rt float cfg_pinned n = Ok n' /\
@@ -191,3 +215,4 @@ Print Assumptions C08_db_refuted.
 Print Assumptions C08_dict_image.
 Print Assumptions C08_db_arith.
 Print Assumptions C08_dict_arith.
+Print Assumptions C08_iter_arith.
